@@ -1578,7 +1578,22 @@ def execute_xproc(spec):
         result.update(fingerprint=log.fingerprint(), sim_time=log.seq, world_rejected={"fit": 1})
         return result
     _, text = ref
-    expected = _load_digest_in_process(world, text)
+    try:
+        expected = _load_digest_in_process(world, text)
+    except Exception as err:  # pylint: disable=W0718
+        # the saved JSON does not even load here: a C06 violation of its own
+        log.add("live", "load", None, "error", type(err).__name__)
+        result["violations"] = [
+            {
+                "property": "C06",
+                "oracle": "load",
+                "step": -1,
+                "message": f"loading the saved JSON raised {type(err).__name__}: {str(err)[:200]}",
+                "signature": {"oracle": "load", "exception": type(err).__name__, "str_clash": False},
+            }
+        ]
+        result.update(fingerprint=log.fingerprint(), sim_time=log.seq, nontrivial=True)
+        return result
     log.add("live", "save", None, "ok", digest(parsed_json(text)))
     scratch = tempfile.mkdtemp(prefix="acsim_xproc_")
     problems = []
@@ -1599,6 +1614,9 @@ def execute_xproc(spec):
                     break
             if got is None:
                 raise HarnessError(f"cross-process load produced no report: rc={proc.returncode} {proc.stderr[-300:]}")
+            if "load_error" in got:
+                problems.append(f"PYTHONHASHSEED={hs}: loading the saved JSON raised {got['load_error']}")
+                continue
             diff = json_diff(parsed_json(text), parsed_json(got["json_again"]))
             if diff:
                 problems.append(f"PYTHONHASHSEED={hs}: re-serialised JSON differs at {diff}")
